@@ -260,6 +260,14 @@ class Interp(Folder):
             if a in v.methods:
                 return v.methods[a]
             self.err(e, "class attribute")
+        if isinstance(v, DT) and a == "__class__":
+            return ("type-of", v)
+        if isinstance(v, tuple) and v[:1] == ("type-of",) and a in ("__name__", "__qualname__"):
+            if isinstance(v[1], DT):
+                return v[1].cls
+            if isinstance(v[1], Obj):
+                return v[1].cls.name
+            return type(v[1]).__name__
         if isinstance(v, DT):
             if a in _STRICT_ATTRS:
                 if v.cls not in _STRICT_ATTRS[a]:
@@ -376,6 +384,10 @@ class Interp(Folder):
             return _py(lambda: a - b)
         if isinstance(e.op, ast.Mult):
             return _py(lambda: a * b)
+        if isinstance(e.op, ast.Pow):
+            return _py(lambda: a**b)
+        if isinstance(e.op, ast.Mod):
+            return _py(lambda: a % b)
         if isinstance(e.op, ast.FloorDiv):
             return _py(lambda: a // b)
         if isinstance(e.op, ast.BitOr):
